@@ -424,3 +424,48 @@ func TestSecondaryIndices_GetStaysInsideTheIndex(t *testing.T) {
 	assert.NoError(t, kvFactory.Close())
 	assert.NoError(t, walFactory.Close())
 }
+
+func TestSecondaryIndices_EmptyKeys(t *testing.T) {
+	var shard int64 = 1
+
+	kvFactory, _ := kv.NewPebbleKVFactory(testKVOptions)
+	walFactory := newTestWalFactory(t)
+
+	lc, _ := NewLeaderController(Config{}, constant.DefaultNamespace, shard, newMockRpcClient(), walFactory, kvFactory)
+	_, _ = lc.NewTerm(&proto.NewTermRequest{Shard: shard, Term: 1})
+	_, _ = lc.BecomeLeader(context.Background(), &proto.BecomeLeaderRequest{
+		Shard:             shard,
+		Term:              1,
+		ReplicationFactor: 1,
+		FollowerMaps:      nil,
+	})
+
+	// A record with an empty primary key and a record with an empty secondary key
+	_, err := lc.WriteBlock(context.Background(), &proto.WriteRequest{
+		Shard: &shard,
+		Puts: []*proto.PutRequest{
+			{Key: "", Value: []byte("0"), SecondaryIndexes: []*proto.SecondaryIndex{{IndexName: "i", SecondaryKey: "b"}}},
+			{Key: "p", Value: []byte("0"), SecondaryIndexes: []*proto.SecondaryIndex{{IndexName: "i", SecondaryKey: ""}}},
+		},
+	})
+	assert.NoError(t, err)
+
+	keys, err := lc.ListBlock(context.Background(), &proto.ListRequest{
+		Shard: &shard, StartInclusive: "", EndExclusive: "z", SecondaryIndexName: pb.String("i")})
+	assert.NoError(t, err)
+	assert.Equal(t, []string{"p", ""}, keys)
+
+	ch := make(chan *entity.TWithError[*proto.GetResponse], 10)
+	lc.Read(context.Background(), &proto.ReadRequest{Shard: &shard, Gets: []*proto.GetRequest{
+		{Key: "b", ComparisonType: proto.KeyComparisonType_EQUAL, SecondaryIndexName: pb.String("i")}}},
+		concurrent.ReadFromStreamCallback(ch))
+	res := <-ch
+	assert.NoError(t, res.Err)
+	assert.Equal(t, proto.Status_OK, res.T.Status)
+	assert.Equal(t, "", res.T.GetKey())
+	assert.Equal(t, "b", res.T.GetSecondaryIndexKey())
+
+	assert.NoError(t, lc.Close())
+	assert.NoError(t, kvFactory.Close())
+	assert.NoError(t, walFactory.Close())
+}
